@@ -290,6 +290,10 @@ val rx_ftl_trail : rx
 
 val parser_regexes : rx list
 
+val rx_keyRE : rx
+
+val c03_regexes : rx list
+
 val rx_printf : rx
 
 val rx_digits_end : rx
@@ -301,6 +305,36 @@ val rx_mochibake : rx
 val rx_c06_escape : rx
 
 val c06_regexes : rx list
+
+val rx_c09_silencer : rx
+
+val rx_c09_mochibake : rx
+
+val rx_c09_dq : rx
+
+val rx_c09_apos : rx
+
+val rx_c09_params : rx
+
+val c09_regexes : rx list
+
+val rx_path_special : rx
+
+val rx_android_region : rx
+
+val rx_android_legacy_in : rx
+
+val rx_android_legacy_out : rx
+
+val rx_android_lang_region : rx
+
+val rx_mozpath_glob : rx
+
+val c11_regexes : rx list
+
+val rx_c14_key_suffix : rx
+
+val c14_regexes : rx list
 
 val all_regexes : rx list
 
